@@ -118,7 +118,7 @@ def run_family(ctx: Ctx, own: str, scenarios: List[dict], extra_cov: Dict[str, A
     cov['transitions'] += trans
     cov['evaluations'] = len(traces)
     cov['distinct_nontrivial'] = nontrivial
-    cov['rule'] = ('seeded random histories of response datagrams over a 16-identity vocabulary driven through '
+    cov['rule'] = ('seeded random histories of response datagrams over a 17-identity vocabulary (PTR, SRV, TXT, A, AAAA, NSEC, HINFO, CNAME; TTLs up to 2^32-1) driven through '
                    'AsyncListener.datagram_received of a real instance in virtual time; non-trivial = distinct '
                    '(by datagram/callback sequence) histories in which at least one datagram changed the cache')
     cov['accepted'] = accepted
